@@ -932,3 +932,44 @@ def run_c05_custom(c):
     for x in (A, B, W):
         x.free()
     return {"id": c["id"], "routes": routes, "paths": paths, "starts": starts}
+
+
+# ---------------------------------------------------------------------------------------------
+# X02 (extension): functions derived from a best path: warping_amount, warping_path_penalty, warp
+def run_x02(c):
+    from dtaidistance import dtw
+    kw = settings(c)
+    S = c["S"]
+    a, b = series(c, "s1", "list"), series(c, "s2", "list")
+    pp = c["pp"]                      # penalty_post in the scaled unit
+    out = {"id": c["id"], "routes": ["warping_path_penalty", "warping_amount", "warp"], "pp": pp}
+
+    def lattice(v, scale):
+        k = round(v * scale)
+        return int(k) if abs(k / scale - v) <= 1e-9 * max(1.0, abs(v)) else OFF_LATTICE
+
+    def penalty():
+        total, path, steps, paths = dtw.warping_path_penalty(a, b, penalty_post=pp / S, **kw)
+        d_plain, _m = dtw.warping_paths(a, b, **kw)
+        return total, path, steps, d_plain
+    r = guarded(penalty)
+    if is_raised(r):
+        out.update({"p": [[-3, -3]], "amount": -3, "extra": -3, "steps": []})
+    else:
+        total, path, steps, d_plain = r
+        out["p"] = enc_path(path)
+        out["amount"] = int(dtw.warping_amount(path))
+        out["extra"] = lattice(float(total) - float(d_plain), S)
+        # cumulative-cost differences are exact integers only for the euclidean inner distance (no sqrt)
+        out["steps"] = [lattice(float(x), S) for x in steps] if c["inner"] == "eu" else []
+    r = guarded(lambda: dtw.warp(a, b, **kw))
+    if is_raised(r):
+        out.update({"wp": [[-3, -3]], "warp": []})
+    else:
+        warped, wpath = r
+        wpath = enc_path(wpath)
+        out["wp"] = wpath
+        cnt = [sum(1 for (_r, cc) in wpath if cc == j) for j in range(len(b))]
+        out["warp"] = [[lattice(float(warped[j]) * cnt[j], S) if cnt[j] else OFF_LATTICE, cnt[j]]
+                       for j in range(len(b))]
+    return out
